@@ -107,6 +107,15 @@ class IndexDomain(ArrNormDomain):
         return NormDomain.to_int(self, v, node)
 
     def call_ext(self, dotted, args, kwargs, node):
+        if dotted in ('numpy.moveaxis', 'numpy.swapaxes') and len(args) == 3 and isinstance(args[0], Shaped) and len(args[0].shape.items) == 2 \
+                and all(isinstance(a, Const) and isinstance(a.v, int) for a in args[1:]):
+            v = args[0]
+            if args[1].v % 2 == args[2].v % 2:
+                return v
+            return Shaped(Tup(list(reversed(v.shape.items))), v.label, origin=('T', v))       # a transposed view of the same memory
+        if dotted == 'numpy.transpose' and len(args) == 1 and isinstance(args[0], Shaped) and len(args[0].shape.items) == 2:
+            v = args[0]
+            return Shaped(Tup(list(reversed(v.shape.items))), v.label, origin=('T', v))
         if dotted in ('math.ceil', 'numpy.ceil', 'math.floor', 'numpy.floor') and args:
             r = self.rat(args[0])
             if r is not None:
@@ -178,7 +187,7 @@ class IndexDomain(ArrNormDomain):
                 return acc
             if name in ('real', 'imag', 'T'):
                 if name == 'T':
-                    return Shaped(Tup(list(reversed(v.shape.items))), v.label + '.T')
+                    return Shaped(Tup(list(reversed(v.shape.items))), v.label + '.T', origin=('T', v) if len(v.shape.items) == 2 else None)
                 return Shaped(v.shape, v.label)
             return None
         return ArrNormDomain.getattr(self, v, name, node)
